@@ -253,7 +253,7 @@ pub fn gen_isolate(rng: &mut Rng) -> Program {
     prog.phases = vec![Phase { ctl: vec![], threads, env_gates: envg, env_streams: vec![] }];
     prog.blocking_gates = blocking_gates;
     prog.blocked_objs = (n_free..n_objs).collect();
-    prog.faults = Faults { spurious_cv_permille: if g.rng.permille(300) { 100 } else { 0 }, spurious_park_permille: 0, self_wake_permille: 0, dup_wake_permille: 0 };
+    prog.faults = Faults { spurious_cv_permille: if g.rng.permille(300) { 100 } else { 0 }, spurious_park_permille: 0, self_wake_permille: 0, dup_wake_permille: 0, keep_waker_permille: 0 };
     finish(prog, &g)
 }
 
@@ -702,7 +702,7 @@ pub fn gen_pipe_drop(rng: &mut Rng) -> Program {
     prog.prespawn = g.rng.permille(300);
     // (a self-waking input would make the pipe release its temporary owner from inside the object's own job: with the
     // harness's owner gone that could be the last one, a drop from inside the object's own operation, which is excluded)
-    prog.faults = Faults { spurious_cv_permille: 0, spurious_park_permille: 0, self_wake_permille: if !sole_owner && g.rng.permille(300) { 300 } else { 0 }, dup_wake_permille: 0 };
+    prog.faults = Faults { spurious_cv_permille: 0, spurious_park_permille: 0, self_wake_permille: if !sole_owner && g.rng.permille(300) { 300 } else { 0 }, dup_wake_permille: 0, keep_waker_permille: if g.rng.permille(400) { 1000 } else { 0 } };
     prog.phases = vec![Phase { ctl: vec![], threads: vec![t0], env_gates: envg, env_streams: vec![] }];
     finish(prog, &g)
 }
@@ -735,6 +735,7 @@ pub fn gen_pipe_drop_sweep(rng: &mut Rng) -> Program {
     prog.n_streams = 1;
     prog.n_outs = 1;
     prog.mark_on_stream_poll = Some(s);
+    prog.faults.keep_waker_permille = if g.rng.permille(400) { 1000 } else { 0 };
     prog.phases = vec![Phase { ctl: vec![], threads: vec![t0, injector], env_gates: envg, env_streams: vec![] }];
     finish(prog, &g)
 }
@@ -824,7 +825,7 @@ pub fn gen_wake_sweep(rng: &mut Rng) -> Program {
     }
     inj.push({ let __k = OpKind::SweepDone; g.op(__k) });
     let mut prog = base_program(pool_max, 1);
-    prog.faults = Faults { spurious_cv_permille: 0, spurious_park_permille: if g.rng.permille(300) { 100 } else { 0 }, self_wake_permille: if g.rng.permille(300) { 300 } else { 0 }, dup_wake_permille: if g.rng.permille(300) { 300 } else { 0 } };
+    prog.faults = Faults { spurious_cv_permille: 0, spurious_park_permille: if g.rng.permille(300) { 100 } else { 0 }, self_wake_permille: if g.rng.permille(300) { 300 } else { 0 }, dup_wake_permille: if g.rng.permille(300) { 300 } else { 0 }, keep_waker_permille: 0 };
     prog.phases = vec![Phase { ctl: vec![], threads: vec![t0, inj], env_gates: vec![], env_streams: vec![] }];
     finish(prog, &g)
 }
@@ -971,6 +972,6 @@ pub fn gen_suspend_saturated(rng: &mut Rng) -> Program {
     }
     let mut prog = base_program(pool_max, n_objs);
     prog.phases = vec![Phase { ctl: vec![], threads, env_gates: vec![], env_streams: vec![] }];
-    prog.faults = Faults { spurious_cv_permille: if g.rng.permille(300) { 100 } else { 0 }, spurious_park_permille: if g.rng.permille(300) { 100 } else { 0 }, self_wake_permille: 0, dup_wake_permille: 0 };
+    prog.faults = Faults { spurious_cv_permille: if g.rng.permille(300) { 100 } else { 0 }, spurious_park_permille: if g.rng.permille(300) { 100 } else { 0 }, self_wake_permille: 0, dup_wake_permille: 0, keep_waker_permille: 0 };
     finish(prog, &g)
 }
